@@ -57,7 +57,15 @@ fn expand_globs(patterns: &[String]) -> Result<Vec<PathBuf>> {
         // Force resolve each glob Paths iterator into a vector of the results...
         .map::<result::Result<Vec<PathBuf>, _>, _>(Iterator::collect)
         // And lift all the results up to the top.
-        .collect::<result::Result<Vec<Vec<PathBuf>>, _>>()?
+        .collect::<result::Result<Vec<Vec<PathBuf>>, _>>()?;
+
+    // A pattern that selects nothing is a missing source, wherever
+    // it stands among the others.
+    if paths.iter().any(|found| found.is_empty()) {
+        return Err(XcpError::InvalidSource("No source files found.").into());
+    }
+
+    let paths = paths
         .iter()
         .flat_map(ToOwned::to_owned)
         .collect::<Vec<PathBuf>>();
